@@ -321,10 +321,11 @@ Lemma peer_step_data tbl mtu up i p ev p' os q ep rcv ctr pk m :
   exists s, p_sess p' = Some s /\ ss_ridx s = rcv /\ ss_expired s = false /\
             p_ep p' = Some ep /\ ctr < ss_ctr s.
 Proof.
-  destruct ev as [pkts|pkts fq fk|mm|j ridx e|j ridx e|j e|j|j| |]; cbn [peer_step].
-  1-8: destruct up; cbn [negb]; [|intros H; inversion H; subst; intros []].
-  9: intros H; inversion H; subst; intros [].
-  9: destruct up; intros H; inversion H; subst; intros [].
+  destruct ev as [pkts|pkts fq fk|mm|j ridx e|j ridx e|j e|rj re|j|j| |]; cbn [peer_step].
+  1-9: destruct up; cbn [negb]; [|intros H; inversion H; subst; intros []].
+  10: intros H; inversion H; subst; intros [].
+  10: destruct up; intros H; inversion H; subst; intros [].
+  7: intros H; inversion H; subst; intros [].
   - apply tun_step_data.
   - intros H Hin. apply peer_step_fault_inv in H.
     destruct H as (p1 & o1 & Ht & Eep & Esess & _ & _ & _ & _ & ->).
@@ -350,11 +351,12 @@ Lemma peer_step_sess tbl mtu up i p ev p' os s' :
   (exists s, p_sess p = Some s /\ ss_ridx s = ss_ridx s') \/
   (exists ep, ev = RefHs i (ss_ridx s') ep \/ ev = AnswerHs i (ss_ridx s') ep).
 Proof.
-  destruct ev as [pkts|pkts fq fk|mm|j ridx e|j ridx e|j e|j|j| |]; cbn [peer_step].
-  1-8: destruct up; cbn [negb];
+  destruct ev as [pkts|pkts fq fk|mm|j ridx e|j ridx e|j e|rj re|j|j| |]; cbn [peer_step].
+  1-9: destruct up; cbn [negb];
          [|intros H; inversion H; subst; intros Hs; left; exists s'; auto].
-  9: intros H; inversion H; subst; cbn [p_sess]; discriminate.
-  9: destruct up; intros H; inversion H; subst; cbn [p_sess]; intros Hs; left; exists s'; auto.
+  10: intros H; inversion H; subst; cbn [p_sess]; discriminate.
+  10: destruct up; intros H; inversion H; subst; cbn [p_sess]; intros Hs; left; exists s'; auto.
+  7: intros H; inversion H; subst; intros Hs; left; exists s'; auto.
   - intros H Hs. left. exact (tun_step_sess _ _ _ _ _ _ _ _ H Hs).
   - intros H Hs. apply peer_step_fault_inv in H.
     destruct H as (p1 & o1 & Ht & _ & Esess & _). rewrite Esess in Hs. left.
@@ -677,10 +679,11 @@ Lemma peer_step_count tbl mtu up i p ev p' os x :
   (cnt (flat_map data_of os) x + cnt (tag i (concat (p_staged p'))) x
    <= cnt (tag i (concat (p_staged p))) x + cnt (tag i (mine tbl i ev)) x)%nat.
 Proof.
-  destruct ev as [pkts|pkts fq fk|mm|j ridx e|j ridx e|j e|j|j| |]; cbn [peer_step].
-  1-8: destruct up; cbn [negb]; [|intros H; inversion H; subst; apply triv_count'].
-  9: intros H; inversion H; subst; cbn [p_staged]; apply flush_count.
-  9: destruct up; intros H; inversion H; subst; cbn [p_staged]; apply triv_count'.
+  destruct ev as [pkts|pkts fq fk|mm|j ridx e|j ridx e|j e|rj re|j|j| |]; cbn [peer_step].
+  1-9: destruct up; cbn [negb]; [|intros H; inversion H; subst; apply triv_count'].
+  10: intros H; inversion H; subst; cbn [p_staged]; apply flush_count.
+  10: destruct up; intros H; inversion H; subst; cbn [p_staged]; apply triv_count'.
+  7: intros H; inversion H; subst; apply triv_count'.
   3-8: cbn [mine].
   - apply tun_step_count.
   - intros H. apply peer_step_fault_inv in H.
@@ -726,7 +729,7 @@ Lemma mine_routed tbl i ev x :
   (cnt (tag i (mine tbl i ev)) x <= if N.eqb (fst x) i then cnt (routed_ev tbl ev) x else 0)%nat.
 Proof.
   destruct (N.eqb_spec (fst x) i) as [E|E]; [|rewrite tag_other by exact E; lia].
-  destruct ev as [pkts|pkts fq fk| | | | | | | |];
+  destruct ev as [pkts|pkts fq fk| | | | | | | | |];
     try (cbn [mine tag flat_map count_occ]; lia); apply mine_routed_pkts.
 Qed.
 
@@ -800,7 +803,7 @@ Proof.
   unfold routed in Hr. apply in_flat_map in Hr. destruct Hr as (ev & Hev & Hr).
   assert (Hb : exists pkts, (In (TunBatch pkts) evs \/ exists q k, In (TunBatchFault pkts q k) evs) /\
                            In (p, b :: l) (routed_ev (s_tbl st) (TunBatch pkts))).
-  { destruct ev as [pkts|pkts fq fk| | | | | | | |]; cbn [routed_ev] in Hr; try (destruct Hr; fail);
+  { destruct ev as [pkts|pkts fq fk| | | | | | | | |]; cbn [routed_ev] in Hr; try (destruct Hr; fail);
       exists pkts; (split; [|exact Hr]); [left; exact Hev|right; exists fq, fk; exact Hev]. }
   clear ev Hev Hr. destruct Hb as (pkts & Hev & Hr). cbn [routed_ev] in Hr.
   apply in_flat_map in Hr. destruct Hr as (y & Hy & Hr).
@@ -1033,4 +1036,19 @@ Proof.
   intros tbl mtu i p pkts [ep H]. rewrite peer_step_fault_eq.
   destruct (tun_step tbl mtu i p pkts) as [p' o]. cbn [snd] in H. subst o.
   rewrite N.eqb_refl. cbn [fst snd]. split; reflexivity.
+Qed.
+
+(* ------------------------------------------------------- replayed initiation *)
+
+Lemma step_peers_replay tbl mtu up rp rep : forall ps i,
+  step_peers tbl mtu up (ReplayInit rp rep) i ps = (ps, []).
+Proof.
+  induction ps as [|p t IH]; intros i; cbn [step_peers]; [reflexivity|].
+  cbn [peer_step]. rewrite IH. destruct up; reflexivity.
+Qed.
+
+Theorem replayed_initiation_is_dropped : forall st p ep, step st (ReplayInit p ep) = (st, []).
+Proof.
+  intros st p ep. unfold step. cbn [mtu_after]. rewrite step_peers_replay.
+  destruct st; reflexivity.
 Qed.
